@@ -7,6 +7,24 @@ package authorizer_test
 // "<verb> tier.<resource> <tier>.*"), whatever decisions/errors it returns for the three checks
 // and however the three concurrent checks interleave; a refusal is a Forbidden error (interface
 // doc).  The same unit is also built with the race detector, which must stay silent.
+//
+// The underlying authorizer is a generated *function of the whole attributes record* (user, verb,
+// API group, resource, subresource, name, namespace, resource-request flag): an ordered rule list in
+// the style of RBAC (rules bound cluster-wide or in one namespace, optional resourceNames,
+// default no-opinion) in which every rule can answer allow / deny / no-opinion with or without an
+// error.  "The user may get the tier" etc. are the function's answers to the three questions the
+// statement names, asked the way the API defines them: `get tiers/<tier>` is a cluster-scoped
+// question (Tier is a cluster-scoped resource: no namespace, no subresource); the two policy
+// questions carry the request's verb, namespace and subresource.  Rules that differ from those
+// questions in one attribute (a Role granting `get tiers` inside the request's namespace, the
+// grant in another namespace / for another verb, user, group, name style ...) make a check that is
+// asked with the wrong attributes change the verdict.
+//
+// The authorizer may honour the context it is handed, like a remote (webhook) authorizer: a
+// check that is still in flight when its context is cancelled gives up with no-opinion and
+// ctx.Err().  The request's own context is never cancelled, so the verdict must still be the
+// formula over the function's answers; generated delays and forced answer orders make the checks
+// overlap (an erroring check answering while a needed allow is still in flight).
 
 import (
 	"context"
@@ -60,10 +78,47 @@ type c34Request struct {
 	Resource, Namespace, Verb, Name, Subresource, Tier, User string
 }
 
+// c34Rule is one rule of the generated authorizer.  The first rule that matches a question answers it.
+type c34Rule struct {
+	Kind            string // what the rule stands for (evidence / messages)
+	User            string // "" = any user
+	Verb            string // "*" = any verb
+	Group           string // "*" = any API group
+	Resource        string
+	Subresource     string // "*" = any
+	Name            string // "*" = no resourceNames restriction
+	Namespace       string // "*" = bound cluster-wide (answers for every namespace and for none); otherwise only this namespace ("" = only cluster-scoped questions)
+	ResourceRequest bool
+	Out             c34Outcome
+}
+
+func (r c34Rule) matches(a k8sauth.AttributesRecord) bool {
+	userName := ""
+	if a.User != nil {
+		userName = a.User.GetName()
+	}
+	return (r.User == "" || r.User == userName) &&
+		(r.Verb == "*" || r.Verb == a.Verb) &&
+		(r.Group == "*" || r.Group == a.APIGroup) &&
+		r.Resource == a.Resource &&
+		(r.Subresource == "*" || r.Subresource == a.Subresource) &&
+		(r.Name == "*" || r.Name == a.Name) &&
+		(r.Namespace == "*" || r.Namespace == a.Namespace) &&
+		r.ResourceRequest == a.ResourceRequest
+}
+
 type c34Case struct {
-	Req      c34Request
+	Req c34Request
+	// Rules is the underlying authorizer; unmatched questions get no-opinion (like RBAC).
+	Rules []c34Rule
+	// Outcomes are the authorizer's answers to the three questions of the statement (derived from Rules).
 	Outcomes [3]c34Outcome
 	Steps    [3]c34Step
+	// HonourCtx: the authorizer gives up (no-opinion + ctx.Err()) when the context it was handed is
+	// cancelled while a check is waiting; Latency is the extra time a check stays in flight after
+	// it was allowed to answer (only waited for when HonourCtx).
+	HonourCtx bool
+	Latency   [3]time.Duration
 	// Finish: when non-nil, the order in which the three checks are made to answer
 	// (check Finish[k] answers only after Finish[k-1] has).
 	Finish []int
@@ -71,8 +126,47 @@ type c34Case struct {
 }
 
 type c34Call struct {
-	Check int
-	Attrs k8sauth.AttributesRecord
+	Check     int
+	Attrs     k8sauth.AttributesRecord
+	Cancelled bool
+}
+
+const c34Group = "projectcalico.org"
+
+func c34User(name string) user.Info {
+	return &user.DefaultInfo{Name: name, UID: "uid-" + name, Groups: []string{"g1"}}
+}
+
+// c34Questions returns the three questions the statement names for a request, with the attributes
+// the API gives them (paths are not part of the generated authorizer's input: for resource
+// requests neither RBAC nor a SubjectAccessReview looks at the path).
+func c34Questions(r c34Request) [3]k8sauth.AttributesRecord {
+	u := c34User(r.User)
+	return [3]k8sauth.AttributesRecord{
+		c34GetTier: {User: u, Verb: "get", Namespace: "", APIGroup: c34Group, APIVersion: "v3", Resource: "tiers",
+			Subresource: "", Name: r.Tier, ResourceRequest: true},
+		c34OnName: {User: u, Verb: r.Verb, Namespace: r.Namespace, APIGroup: c34Group, APIVersion: "v3", Resource: "tier." + r.Resource,
+			Subresource: r.Subresource, Name: r.Name, ResourceRequest: true},
+		c34OnWildcard: {User: u, Verb: r.Verb, Namespace: r.Namespace, APIGroup: c34Group, APIVersion: "v3", Resource: "tier." + r.Resource,
+			Subresource: r.Subresource, Name: r.Tier + ".*", ResourceRequest: true},
+	}
+}
+
+// answer evaluates the generated authorizer on one question.
+func (c *c34Case) answer(a k8sauth.AttributesRecord) (c34Outcome, string) {
+	for _, r := range c.Rules {
+		if r.matches(a) {
+			return r.Out, r.Kind
+		}
+	}
+	return c34Outcome{Decision: k8sauth.DecisionNoOpinion}, "no rule (default no-opinion)"
+}
+
+// derive fills in Outcomes from Rules.
+func (c *c34Case) derive() {
+	for i, q := range c34Questions(c.Req) {
+		c.Outcomes[i], _ = c.answer(q)
+	}
 }
 
 // c34Fake is the underlying authorizer: it recognises which of the three checks a call is,
@@ -93,6 +187,25 @@ func c34NewFake(c *c34Case) *c34Fake {
 	return f
 }
 
+// wait blocks for d; it reports false if the authorizer honours ctx and ctx was cancelled first.
+func (f *c34Fake) wait(ctx context.Context, d time.Duration) bool {
+	if d <= 0 {
+		return true
+	}
+	if !f.c.HonourCtx {
+		time.Sleep(d)
+		return true
+	}
+	tm := time.NewTimer(d)
+	defer tm.Stop()
+	select {
+	case <-ctx.Done():
+		return false
+	case <-tm.C:
+		return true
+	}
+}
+
 func (f *c34Fake) Authorize(ctx context.Context, a k8sauth.Attributes) (k8sauth.Decision, string, error) {
 	rec := k8sauth.AttributesRecord{
 		User: a.GetUser(), Verb: a.GetVerb(), Namespace: a.GetNamespace(), APIGroup: a.GetAPIGroup(),
@@ -109,7 +222,8 @@ func (f *c34Fake) Authorize(ctx context.Context, a k8sauth.Attributes) (k8sauth.
 		check = c34OnName
 	}
 	f.mu.Lock()
-	f.calls = append(f.calls, c34Call{check, rec})
+	idx := len(f.calls)
+	f.calls = append(f.calls, c34Call{Check: check, Attrs: rec})
 	if check < 0 {
 		f.bad = append(f.bad, fmt.Sprintf("%+v", rec))
 	}
@@ -117,33 +231,52 @@ func (f *c34Fake) Authorize(ctx context.Context, a k8sauth.Attributes) (k8sauth.
 	if check < 0 {
 		return k8sauth.DecisionNoOpinion, "unrecognised check", nil
 	}
+	cancelled := func() (k8sauth.Decision, string, error) {
+		f.mu.Lock()
+		f.calls[idx].Cancelled = true
+		f.mu.Unlock()
+		return k8sauth.DecisionNoOpinion, "gave up: context cancelled while the check was in flight", ctx.Err()
+	}
 	st := f.c.Steps[check]
 	for i := 0; i < st.Yields; i++ {
 		runtime.Gosched()
 	}
-	if st.Sleep > 0 {
-		time.Sleep(st.Sleep)
-	}
 	if f.c.Finish != nil {
 		for k, ch := range f.c.Finish {
 			if ch == check {
+				// Whatever happens, the successor is released when this call returns.
+				defer close(f.done[check])
 				if k > 0 {
+					var ctxDone <-chan struct{}
+					if f.c.HonourCtx {
+						ctxDone = ctx.Done()
+					}
+					tm := time.NewTimer(5 * time.Second)
 					select {
 					case <-f.done[f.c.Finish[k-1]]:
-					case <-time.After(5 * time.Second):
+						tm.Stop()
+					case <-ctxDone:
+						tm.Stop()
+						return cancelled()
+					case <-tm.C:
 						// the predecessor never ran (fewer than three checks made): do not wedge
 					}
 				}
-				defer close(f.done[check])
 			}
 		}
 	}
-	o := f.c.Outcomes[check]
+	if !f.wait(ctx, st.Sleep) || (f.c.HonourCtx && !f.wait(ctx, f.c.Latency[check])) {
+		return cancelled()
+	}
+	if f.c.HonourCtx && ctx.Err() != nil {
+		return cancelled()
+	}
+	o, kind := f.c.answer(rec)
 	var err error
 	if o.Err {
 		err = errors.New("authorizer backend failure for " + c34CheckName[check])
 	}
-	return o.Decision, "generated", err
+	return o.Decision, "generated: " + kind, err
 }
 
 func (f *c34Fake) ConditionsAwareAuthorize(ctx context.Context, a k8sauth.Attributes) k8sauth.ConditionsAwareDecision {
@@ -156,7 +289,7 @@ func (f *c34Fake) EvaluateConditions(ctx context.Context, decision k8sauth.Condi
 
 func c34Context(r c34Request) context.Context {
 	ctx := genericapirequest.NewContext()
-	ctx = genericapirequest.WithUser(ctx, &user.DefaultInfo{Name: r.User, UID: "uid-" + r.User, Groups: []string{"g1"}})
+	ctx = genericapirequest.WithUser(ctx, c34User(r.User))
 	path := "/apis/projectcalico.org/v3/"
 	if r.Namespace != "" {
 		ctx = genericapirequest.WithNamespace(ctx, r.Namespace)
@@ -170,7 +303,7 @@ func c34Context(r c34Request) context.Context {
 		path += "/" + r.Subresource
 	}
 	ctx = genericapirequest.WithRequestInfo(ctx, &genericapirequest.RequestInfo{
-		IsResourceRequest: true, Path: path, Verb: r.Verb, APIGroup: "projectcalico.org", APIVersion: "v3",
+		IsResourceRequest: true, Path: path, Verb: r.Verb, APIGroup: c34Group, APIVersion: "v3",
 		Resource: r.Resource, Subresource: r.Subresource, Namespace: r.Namespace, Name: r.Name,
 	})
 	return ctx
@@ -186,17 +319,56 @@ func c34RunOnce(c *c34Case) string {
 	if len(f.bad) > 0 {
 		return "HARNESS-GAP: the tier authorizer made a check the harness cannot classify as get-tier / on-name / on-wildcard: " + strings.Join(f.bad, "; ")
 	}
-	seen := map[int]int{}
+	// What was asked, and what the authorizer said to it (for the messages).
+	questions := c34Questions(c.Req)
+	var asked []string
+	anyCancelled := false
 	for _, call := range f.calls {
-		seen[call.Check]++
 		a := call.Attrs
+		o, kind := c.answer(a)
+		ans := fmt.Sprintf("%v by %s", o, kind)
+		if call.Cancelled {
+			ans = "gave up with no-opinion + context.Canceled (its context was cancelled while it was in flight; the request's context never was)"
+			anyCancelled = true
+		}
+		asked = append(asked, fmt.Sprintf("%s asked as {%s %s/%s sub=%q name=%q ns=%q group=%q resourceRequest=%v} -> %s",
+			c34CheckName[call.Check], a.Verb, a.APIGroup, a.Resource, a.Subresource, a.Name, a.Namespace, a.APIGroup, a.ResourceRequest, ans))
+	}
+	sort.Strings(asked)
+	detail := fmt.Sprintf("\n  the authorizer's answers to the statement's questions: may get tiers/%s (cluster-scoped) = %v; may %s on name %q = %v; may %s on %q = %v\n  checks made:\n    %s",
+		c.Req.Tier, c.Outcomes[0], c.Req.Verb, c.Req.Name, c.Outcomes[1], c.Req.Verb, c.Req.Tier+".*", c.Outcomes[2], strings.Join(asked, "\n    "))
+	_ = anyCancelled
+
+	allowed := func(i int) bool { return c.Outcomes[i].Decision == k8sauth.DecisionAllow }
+	want := allowed(c34GetTier) && (allowed(c34OnName) || allowed(c34OnWildcard))
+	if want && err != nil {
+		return fmt.Sprintf("request refused (%v) although the user may get the tier and may perform the operation%s", err, detail)
+	}
+	if !want && err == nil {
+		return fmt.Sprintf("request allowed although get-tier=%v, on-name=%v, on-wildcard=%v%s", c.Outcomes[0], c.Outcomes[1], c.Outcomes[2], detail)
+	}
+	if !want && !k8serrors.IsForbidden(err) {
+		return fmt.Sprintf("refusal must be a Forbidden error, got %T %v", err, err)
+	}
+
+	// The questions themselves: each check must be the question the statement names.
+	for _, call := range f.calls {
+		a := call.Attrs
+		q := questions[call.Check]
 		if a.User == nil || a.User.GetName() != c.Req.User {
 			return fmt.Sprintf("check %s made for user %v, request user is %q", c34CheckName[call.Check], a.User, c.Req.User)
+		}
+		if !a.ResourceRequest || a.APIGroup != q.APIGroup {
+			return fmt.Sprintf("check %s must be a resource request in API group %q, was resourceRequest=%v group=%q", c34CheckName[call.Check], q.APIGroup, a.ResourceRequest, a.APIGroup)
 		}
 		switch call.Check {
 		case c34GetTier:
 			if a.Verb != "get" || a.Name != c.Req.Tier {
 				return fmt.Sprintf("tier check must be 'get tiers/%s', was '%s tiers/%s'", c.Req.Tier, a.Verb, a.Name)
+			}
+			if a.Namespace != "" || a.Subresource != "" {
+				return fmt.Sprintf("tier check must be the cluster-scoped question 'get tiers/%s' (Tier is a cluster-scoped resource), was asked with namespace=%q subresource=%q (request %+v)",
+					c.Req.Tier, a.Namespace, a.Subresource, c.Req)
 			}
 		default:
 			if a.Verb != c.Req.Verb || a.Namespace != c.Req.Namespace || a.Subresource != c.Req.Subresource {
@@ -204,17 +376,6 @@ func c34RunOnce(c *c34Case) string {
 					c34CheckName[call.Check], c.Req.Verb, c.Req.Namespace, c.Req.Subresource, a.Verb, a.Namespace, a.Subresource)
 			}
 		}
-	}
-	allowed := func(i int) bool { return seen[i] > 0 && c.Outcomes[i].Decision == k8sauth.DecisionAllow }
-	want := allowed(c34GetTier) && (allowed(c34OnName) || allowed(c34OnWildcard))
-	if want && err != nil {
-		return fmt.Sprintf("request refused (%v) although get-tier=%v and on-name=%v / on-wildcard=%v", err, c.Outcomes[0], c.Outcomes[1], c.Outcomes[2])
-	}
-	if !want && err == nil {
-		return fmt.Sprintf("request allowed although get-tier=%v, on-name=%v, on-wildcard=%v (checks made: %v)", c.Outcomes[0], c.Outcomes[1], c.Outcomes[2], seen)
-	}
-	if !want && !k8serrors.IsForbidden(err) {
-		return fmt.Sprintf("refusal must be a Forbidden error, got %T %v", err, err)
 	}
 	return ""
 }
@@ -227,13 +388,118 @@ var (
 		{"networkpolicies", true}, {"globalnetworkpolicies", false}, {"stagednetworkpolicies", true},
 		{"stagedglobalnetworkpolicies", false}, {"stagedkubernetesnetworkpolicies", true},
 	}
-	c34Verbs    = []string{"get", "list", "watch", "create", "update", "patch", "delete", "deletecollection"}
-	c34Tiers    = []string{"default", "net-sec", "t1"}
+	c34Verbs = []string{"get", "list", "watch", "create", "update", "patch", "delete", "deletecollection"}
+	c34Tiers = []string{"default", "net-sec", "t1"}
 	// The authorizer.Authorizer contract allows any decision together with an error (the union
 	// authorizer passes a sub-authorizer's error through with its decision), and the statement
 	// says "whatever the underlying authorizer answers": all 3 decisions x {nil, error}.
 	c34Decisions = []k8sauth.Decision{k8sauth.DecisionAllow, k8sauth.DecisionDeny, k8sauth.DecisionNoOpinion}
 )
+
+// c34GenOutcome: favour Allow so that the allowed side of the equivalence is as common as the
+// refused side; an error accompanies any decision a third of the time.
+func c34GenOutcome(t *rapid.T, label string, allowOutOf10 int) c34Outcome {
+	var o c34Outcome
+	if rapid.IntRange(0, 9).Draw(t, "allow-"+label) < allowOutOf10 {
+		o.Decision = k8sauth.DecisionAllow
+	} else {
+		o.Decision = rapid.SampledFrom(c34Decisions[1:]).Draw(t, "decision-"+label)
+	}
+	o.Err = rapid.IntRange(0, 2).Draw(t, "error-"+label) == 0
+	return o
+}
+
+// c34GenRules generates the underlying authorizer for a request: usually one rule answering each
+// of the statement's three questions exactly (bound cluster-wide or in the question's namespace,
+// like ClusterRoleBinding / RoleBinding), followed by rules that differ from those questions in
+// one attribute.
+func c34GenRules(t *rapid.T, r c34Request) []c34Rule {
+	var rules []c34Rule
+	qs := c34Questions(r)
+	for i, q := range qs {
+		if rapid.IntRange(0, 9).Draw(t, "exactRule-"+c34CheckName[i]) == 0 {
+			continue // nothing says anything about this question directly
+		}
+		rule := c34Rule{Kind: "exact-" + c34CheckName[i], User: r.User, Verb: q.Verb, Group: q.APIGroup, Resource: q.Resource,
+			Subresource: q.Subresource, Name: q.Name, Namespace: q.Namespace, ResourceRequest: true}
+		switch rapid.IntRange(0, 3).Draw(t, "binding-"+c34CheckName[i]) {
+		case 0:
+			rule.Namespace = "*" // bound cluster-wide
+			rule.Kind += "(cluster-wide)"
+		case 1:
+			rule.User = "" // e.g. bound to system:authenticated
+		}
+		rule.Out = c34GenOutcome(t, c34CheckName[i], 6)
+		rules = append(rules, rule)
+	}
+	otherNS := "prod"
+	if r.Namespace == "prod" {
+		otherNS = "default"
+	}
+	reqNS := r.Namespace
+	if reqNS == "" {
+		reqNS = "default"
+	}
+	otherName := "pol"
+	if r.Name == "pol" || r.Name == "" {
+		otherName = r.Tier + ".pol"
+	}
+	otherVerb := "get"
+	if r.Verb == "get" {
+		otherVerb = "update"
+	}
+	otherSub := "status"
+	if r.Subresource != "" {
+		otherSub = ""
+	}
+	pol := "tier." + r.Resource
+	polName := func(t *rapid.T) string {
+		return rapid.SampledFrom([]string{r.Name, r.Tier + ".*", "*"}).Draw(t, "nearMissName")
+	}
+	n := rapid.IntRange(0, 3).Draw(t, "nNearMissRules")
+	for i := 0; i < n; i++ {
+		base := c34Rule{User: r.User, Group: c34Group, ResourceRequest: true}
+		switch rapid.IntRange(0, 13).Draw(t, "nearMissKind") {
+		case 0, 1, 2: // a Role/RoleBinding granting get on tiers inside a namespace
+			base.Kind, base.Verb, base.Resource, base.Name, base.Namespace = "tiers-granted-in-request-namespace", "get", "tiers", rapid.SampledFrom([]string{r.Tier, "*"}).Draw(t, "tiersName"), reqNS
+		case 3:
+			base.Kind, base.Verb, base.Resource, base.Name, base.Namespace = "tiers-granted-in-other-namespace", "get", "tiers", "*", otherNS
+		case 4:
+			base.Kind, base.Verb, base.Resource, base.Name, base.Namespace = "tiers-other-verb", rapid.SampledFrom([]string{"list", "watch", r.Verb}).Draw(t, "tiersVerb"), "tiers", "*", "*"
+		case 5:
+			base.Kind, base.Verb, base.Resource, base.Name, base.Namespace, base.Subresource = "tiers-subresource", "get", "tiers", "*", "*", "status"
+		case 6:
+			base.Kind, base.Verb, base.Resource, base.Name, base.Namespace = "other-tier", "get", "tiers", "some-other-tier", "*"
+		case 7: // the policy grant only for cluster-scoped questions / in another namespace
+			base.Kind, base.Verb, base.Resource, base.Name, base.Subresource = "policy-granted-outside-request-namespace", r.Verb, pol, polName(t), r.Subresource
+			base.Namespace = otherNS
+			if r.Namespace != "" && rapid.Bool().Draw(t, "clusterScopedOnly") {
+				base.Namespace = ""
+			}
+		case 8:
+			base.Kind, base.Verb, base.Resource, base.Name, base.Namespace, base.Subresource = "policy-other-verb", otherVerb, pol, polName(t), "*", r.Subresource
+		case 9:
+			base.Kind, base.Verb, base.Resource, base.Name, base.Namespace, base.Subresource = "policy-other-subresource", r.Verb, pol, polName(t), "*", otherSub
+		case 10: // the other naming style of the same policy
+			base.Kind, base.Verb, base.Resource, base.Name, base.Namespace, base.Subresource = "policy-other-name-style", r.Verb, pol, otherName, "*", r.Subresource
+		case 11: // the plain (not tier-scoped) resource
+			base.Kind, base.Verb, base.Resource, base.Name, base.Namespace, base.Subresource = "plain-resource", r.Verb, r.Resource, "*", "*", "*"
+		case 12:
+			base.Kind, base.Verb, base.Resource, base.Name, base.Namespace, base.Subresource = "other-user", "*", rapid.SampledFrom([]string{"tiers", pol}).Draw(t, "otherUserResource"), "*", "*", "*"
+			base.User = "mallory"
+		default: // same attributes, other API group or a non-resource request
+			base.Kind, base.Verb, base.Resource, base.Name, base.Namespace, base.Subresource = "other-group-or-non-resource", "*", rapid.SampledFrom([]string{"tiers", pol}).Draw(t, "otherGroupResource"), "*", "*", "*"
+			if rapid.Bool().Draw(t, "nonResource") {
+				base.ResourceRequest = false
+			} else {
+				base.Group = rapid.SampledFrom([]string{"", "crd.projectcalico.org"}).Draw(t, "otherGroup")
+			}
+		}
+		base.Out = c34GenOutcome(t, "nearMiss", 8)
+		rules = append(rules, base)
+	}
+	return rules
+}
 
 func c34Gen(t *rapid.T) *c34Case {
 	c := &c34Case{}
@@ -256,16 +522,8 @@ func c34Gen(t *rapid.T) *c34Case {
 			c.Req.Subresource = "status"
 		}
 	}
-	// outcomes: favour Allow so that the allowed side of the equivalence is as common as the
-	// refused side; an error accompanies any decision a third of the time
-	for i := range c.Outcomes {
-		if rapid.IntRange(0, 9).Draw(t, "allow-"+c34CheckName[i]) < 6 {
-			c.Outcomes[i].Decision = k8sauth.DecisionAllow
-		} else {
-			c.Outcomes[i].Decision = rapid.SampledFrom(c34Decisions[1:]).Draw(t, "decision-"+c34CheckName[i])
-		}
-		c.Outcomes[i].Err = rapid.IntRange(0, 2).Draw(t, "error-"+c34CheckName[i]) == 0
-	}
+	c.Rules = c34GenRules(t, c.Req)
+	c.derive()
 	for i := range c.Steps {
 		c.Steps[i].Yields = rapid.IntRange(0, 3).Draw(t, "yields-"+c34CheckName[i])
 		if rapid.IntRange(0, 3).Draw(t, "sleeps-"+c34CheckName[i]) == 0 {
@@ -275,19 +533,92 @@ func c34Gen(t *rapid.T) *c34Case {
 	if rapid.Bool().Draw(t, "forcedOrder") {
 		c.Finish = rapid.Permutation([]int{0, 1, 2}).Draw(t, "finishOrder")
 	}
+	// A context-honouring (remote-style) authorizer; checks stay in flight a little longer so that
+	// they overlap with the answers of their siblings.
+	c.HonourCtx = rapid.Bool().Draw(t, "authorizerHonoursContext")
+	if c.HonourCtx {
+		for i := range c.Latency {
+			if rapid.IntRange(0, 2).Draw(t, "inFlight-"+c34CheckName[i]) > 0 {
+				c.Latency[i] = time.Duration(rapid.IntRange(200, 1500).Draw(t, "latency-us-"+c34CheckName[i])) * time.Microsecond
+			}
+		}
+	}
 	c.Procs = rapid.SampledFrom([]int{1, 2, 4, 8}).Draw(t, "gomaxprocs")
 	return c
 }
 
 func c34Shape(c *c34Case) string {
-	return fmt.Sprintf("%s/%v/%v|%v,%v,%v|%v", c.Req.Resource, c.Req.Verb, c.Req.Name != "", c.Outcomes[0], c.Outcomes[1], c.Outcomes[2], c.Finish)
+	var kinds []string
+	for _, r := range c.Rules {
+		if !strings.HasPrefix(r.Kind, "exact-") {
+			kinds = append(kinds, r.Kind+"="+r.Out.String())
+		}
+	}
+	return fmt.Sprintf("%s/%v/%v|%v,%v,%v|%v|%v|%v", c.Req.Resource, c.Req.Verb, c.Req.Name != "", c.Outcomes[0], c.Outcomes[1], c.Outcomes[2], c.Finish, c.HonourCtx, kinds)
+}
+
+// c34ExactRules is the authorizer that answers exactly the statement's three questions with the
+// given outcomes (and no-opinion to everything else).
+func c34ExactRules(r c34Request, o [3]c34Outcome) []c34Rule {
+	var rules []c34Rule
+	for i, q := range c34Questions(r) {
+		rules = append(rules, c34Rule{Kind: "exact-" + c34CheckName[i], User: r.User, Verb: q.Verb, Group: q.APIGroup, Resource: q.Resource,
+			Subresource: q.Subresource, Name: q.Name, Namespace: q.Namespace, ResourceRequest: true, Out: o[i]})
+	}
+	return rules
+}
+
+func c34Allows(o c34Outcome) bool { return o.Decision == k8sauth.DecisionAllow }
+
+// c34NamespacedTierGrantMatters: the user may not get the tier, but a grant of `get tiers` that is
+// bound inside the request's namespace exists and the policy side allows: a tier check asked with
+// the request's namespace would open the gate.
+func c34NamespacedTierGrantMatters(c *c34Case) bool {
+	if c.Req.Namespace == "" || c34Allows(c.Outcomes[c34GetTier]) || !(c34Allows(c.Outcomes[c34OnName]) || c34Allows(c.Outcomes[c34OnWildcard])) {
+		return false
+	}
+	q := c34Questions(c.Req)[c34GetTier]
+	q.Namespace = c.Req.Namespace
+	o, _ := c.answer(q)
+	return c34Allows(o)
+}
+
+// c34ErrorBeforeNeededAllow: under the forced answer order an erroring check answers while a check
+// whose Allow the verdict needs is still in flight at a context-honouring authorizer.
+func c34ErrorBeforeNeededAllow(c *c34Case) bool {
+	o := c.Outcomes
+	if !c.HonourCtx || c.Finish == nil || !(c34Allows(o[0]) && (c34Allows(o[1]) || c34Allows(o[2]))) {
+		return false
+	}
+	needed := func(i int) bool {
+		switch i {
+		case c34GetTier:
+			return true
+		case c34OnName:
+			return c34Allows(o[c34OnName]) && !c34Allows(o[c34OnWildcard])
+		default:
+			return c34Allows(o[c34OnWildcard]) && !c34Allows(o[c34OnName])
+		}
+	}
+	for k := 0; k < len(c.Finish); k++ {
+		if !o[c.Finish[k]].Err {
+			continue
+		}
+		for j := k + 1; j < len(c.Finish); j++ {
+			if needed(c.Finish[j]) {
+				return true
+			}
+		}
+	}
+	return false
 }
 
 func c34Property(t *testing.T, unit string) {
 	ev.Quiet()
 	rec := ev.New("C34", unit,
-		"request shapes (5 policy resources x verbs x named/unnamed/old- and new-style names x tiers) x a generated outcome (allow/deny/no-opinion, each with or without an authorizer error: 6 per check) for each of the three checks x a schedule (yields, microsecond sleeps, optionally a forced answer order) x GOMAXPROCS in {1,2,4,8}; each case is executed several times; non-trivial = the three outcomes are not all equal; distinct = (request shape, outcomes, forced order)",
-		"the underlying authorizer answers each check with a fixed generated outcome: any of the three decisions, with or without an error; 'may' in the statement means the decision is Allow, errors do not count (the tier authorizer only logs them)",
+		"request shapes (5 policy resources x verbs x named/unnamed/old- and new-style names x tiers) x a generated underlying authorizer that is a function of the whole attributes record: an ordered RBAC-style rule list (usually one rule per question of the statement, bound cluster-wide or in the question's namespace, answering allow/deny/no-opinion with or without an error, then 0-3 near-miss rules: `get tiers` granted inside a namespace, other verb/subresource/tier, policy grant in another namespace or only cluster-scoped, other name style/user/group, non-resource) x a schedule (yields, microsecond delays, optionally a forced answer order) x an authorizer that may honour context cancellation with in-flight latencies x GOMAXPROCS in {1,2,4,8}; each case is executed several times; non-trivial = the three answers are not all equal; distinct = (request shape, answers, forced order, ctx-honouring, near-miss rules)",
+		"'may' in the statement means the generated authorizer's decision for the question is Allow (errors do not count); 'get the tier' is the cluster-scoped question get tiers/<tier> (no namespace, no subresource); the two policy questions carry the request's verb, namespace and subresource; the request path is not an input of the generated authorizer",
+		"a context-honouring authorizer gives up (no-opinion + ctx.Err()) only if the context it was handed is cancelled; the request's own context is never cancelled",
 		"interleavings are those the Go scheduler produces under the generated yields/sleeps/forced orders, not an exhaustive schedule enumeration")
 	defer rec.Write()
 	reps := ev.Scale(6, 20)
@@ -299,8 +630,8 @@ func c34Property(t *testing.T, unit string) {
 		runtime.GOMAXPROCS(c.Procs)
 		for r := 0; r < reps; r++ {
 			if msg := c34RunOnce(c); msg != "" {
-				t.Fatalf("%s\nrequest %+v\noutcomes get-tier=%v on-name=%v on-wildcard=%v\nschedule %+v forced order %v GOMAXPROCS=%d (repetition %d)",
-					msg, c.Req, c.Outcomes[0], c.Outcomes[1], c.Outcomes[2], c.Steps, c.Finish, c.Procs, r)
+				t.Fatalf("%s\nrequest %+v\nauthorizer rules (first match answers, default no-opinion): %+v\nauthorizer honours context cancellation: %v, in-flight latencies %v\nschedule %+v forced order %v GOMAXPROCS=%d (repetition %d)",
+					msg, c.Req, c.Rules, c.HonourCtx, c.Latency, c.Steps, c.Finish, c.Procs, r)
 			}
 		}
 		o := c.Outcomes
@@ -324,6 +655,30 @@ func c34Property(t *testing.T, unit string) {
 		if c.Req.Name == "" {
 			cl = append(cl, "unnamed-request")
 		}
+		if c.Req.Namespace != "" {
+			cl = append(cl, "namespaced-request")
+		}
+		nearMiss := map[string]bool{}
+		for _, r := range c.Rules {
+			if !strings.HasPrefix(r.Kind, "exact-") {
+				nearMiss["rule:"+r.Kind] = true
+			}
+		}
+		for k := range nearMiss {
+			cl = append(cl, k)
+		}
+		if len(nearMiss) > 0 {
+			cl = append(cl, "near-miss-rules")
+		}
+		if c34NamespacedTierGrantMatters(c) {
+			cl = append(cl, "namespaced-tier-grant-would-open-the-gate")
+		}
+		if c.HonourCtx {
+			cl = append(cl, "ctx-honouring-authorizer")
+		}
+		if c34ErrorBeforeNeededAllow(c) {
+			cl = append(cl, "error-answers-while-needed-allow-in-flight")
+		}
 		sort.Strings(cl)
 		rec.Case(!(o[0] == o[1] && o[1] == o[2]), c34Shape(c), func() any { return c }, cl...)
 	})
@@ -345,14 +700,62 @@ func TestVerifC34KnownSharedErrRace(t *testing.T) {
 	for _, perm := range [][]int{nil, {0, 1, 2}, {2, 1, 0}, {1, 0, 2}} {
 		for _, withErr := range []bool{false, true} {
 			c := &c34Case{
-				Req:      c34Request{Resource: "networkpolicies", Namespace: "default", Verb: "get", Name: "default.pol", Tier: "default", User: "alice"},
-				Outcomes: [3]c34Outcome{{k8sauth.DecisionAllow, false}, {k8sauth.DecisionNoOpinion, withErr}, {k8sauth.DecisionAllow, false}},
-				Finish:   perm,
+				Req:    c34Request{Resource: "networkpolicies", Namespace: "default", Verb: "get", Name: "default.pol", Tier: "default", User: "alice"},
+				Finish: perm,
 			}
+			c.Rules = c34ExactRules(c.Req, [3]c34Outcome{{k8sauth.DecisionAllow, false}, {k8sauth.DecisionNoOpinion, withErr}, {k8sauth.DecisionAllow, false}})
+			c.derive()
 			for i := 0; i < 10; i++ {
 				if msg := c34RunOnce(c); msg != "" {
 					t.Fatalf("%s", msg)
 				}
+			}
+		}
+	}
+}
+
+// TestVerifC34TierGateIsClusterScoped: deterministic companion of the generated search.  A user who
+// holds `get tiers` only through a grant bound inside the request's namespace may not get the
+// (cluster-scoped) tier, so the request must be refused whatever the policy side says.
+func TestVerifC34TierGateIsClusterScoped(t *testing.T) {
+	ev.Quiet()
+	allow := c34Outcome{Decision: k8sauth.DecisionAllow}
+	for _, res := range []string{"networkpolicies", "stagednetworkpolicies", "stagedkubernetesnetworkpolicies"} {
+		c := &c34Case{Req: c34Request{Resource: res, Namespace: "prod", Verb: "update", Name: "pol", Tier: "net-sec", User: "alice"}}
+		qs := c34Questions(c.Req)
+		c.Rules = []c34Rule{
+			{Kind: "exact-on-wildcard", User: "alice", Verb: "update", Group: c34Group, Resource: qs[c34OnWildcard].Resource, Name: "net-sec.*", Namespace: "prod", ResourceRequest: true, Out: allow},
+			{Kind: "tiers-granted-in-request-namespace", User: "alice", Verb: "get", Group: c34Group, Resource: "tiers", Name: "*", Namespace: "prod", ResourceRequest: true, Out: allow},
+		}
+		c.derive()
+		if msg := c34RunOnce(c); msg != "" {
+			t.Fatalf("%s\nrequest %+v", msg, c.Req)
+		}
+	}
+}
+
+// TestVerifC34SiblingErrorDoesNotLoseAnAllow: deterministic companion of the generated search.  The
+// authorizer honours its context; one check answers with an error while a check whose Allow is
+// needed is still in flight.  The verdict must not depend on that interleaving.
+func TestVerifC34SiblingErrorDoesNotLoseAnAllow(t *testing.T) {
+	ev.Quiet()
+	allow := c34Outcome{Decision: k8sauth.DecisionAllow}
+	failing := c34Outcome{Decision: k8sauth.DecisionNoOpinion, Err: true}
+	for _, tc := range []struct {
+		out    [3]c34Outcome
+		finish []int
+	}{
+		{[3]c34Outcome{allow, failing, allow}, []int{c34OnName, c34OnWildcard, c34GetTier}},
+		{[3]c34Outcome{allow, allow, failing}, []int{c34OnWildcard, c34GetTier, c34OnName}},
+		{[3]c34Outcome{{Decision: k8sauth.DecisionAllow, Err: true}, allow, failing}, []int{c34GetTier, c34OnName, c34OnWildcard}},
+	} {
+		c := &c34Case{Req: c34Request{Resource: "globalnetworkpolicies", Verb: "delete", Name: "t1.pol", Tier: "t1", User: "alice"},
+			Finish: tc.finish, HonourCtx: true, Latency: [3]time.Duration{2 * time.Millisecond, 2 * time.Millisecond, 2 * time.Millisecond}}
+		c.Rules = c34ExactRules(c.Req, tc.out)
+		c.derive()
+		for i := 0; i < 3; i++ {
+			if msg := c34RunOnce(c); msg != "" {
+				t.Fatalf("%s\nrequest %+v forced order %v", msg, c.Req, c.Finish)
 			}
 		}
 	}
